@@ -153,8 +153,8 @@ theorem critUnlaunched_nil (ds : List Desc) (r : Round) (h : critMissing ds r = 
 /-! ### the attempt loop -/
 
 /-- One step of the loop of the code as it is, spelled out with `critMissing`. -/
-theorem acquireLoop_code_succ (m : Nat) (ds : List Desc) (n : Nat) (flag : Bool) (rs : List Round) :
-    acquireLoop ⟨m, true⟩ ds (n + 1) flag rs =
+theorem acquireLoop_code_succ (m c : Nat) (ds : List Desc) (n : Nat) (flag : Bool) (rs : List Round) :
+    acquireLoop ⟨m, true, c⟩ ds (n + 1) flag rs =
       if critMissing ds (rs.headD []) = false then
         { attempts := [(roundOutcome ds (rs.headD [])).deployed], ok := true,
           kept := (roundOutcome ds (rs.headD [])).deployed, marked := [] }
@@ -162,8 +162,8 @@ theorem acquireLoop_code_succ (m : Nat) (ds : List Desc) (n : Nat) (flag : Bool)
         { attempts := [[]], ok := false, kept := [],
           marked := (roundOutcome ds (rs.headD [])).undeployable.filter (critAt ds) }
       else
-        { acquireLoop ⟨m, true⟩ ds n false rs.tail with
-          attempts := [] :: (acquireLoop ⟨m, true⟩ ds n false rs.tail).attempts } := by
+        { acquireLoop ⟨m, true, c⟩ ds n false rs.tail with
+          attempts := [] :: (acquireLoop ⟨m, true, c⟩ ds n false rs.tail).attempts } := by
   rw [acquireLoop]
   simp only [↓reduceIte, Bool.true_and, attemptVerdict_round]
   generalize rs.headD [] = r
@@ -175,8 +175,8 @@ theorem acquireLoop_code_succ (m : Nat) (ds : List Desc) (n : Nat) (flag : Bool)
     · simp [hn, hd]
 
 /-- The verdict on an attempt does not depend on what the earlier attempts left in the flag. -/
-theorem acquireLoop_code_flag (m : Nat) (ds : List Desc) (n : Nat) (flag : Bool) (rs : List Round) :
-    acquireLoop ⟨m, true⟩ ds (n + 1) flag rs = acquireLoop ⟨m, true⟩ ds (n + 1) true rs := by
+theorem acquireLoop_code_flag (m c : Nat) (ds : List Desc) (n : Nat) (flag : Bool) (rs : List Round) :
+    acquireLoop ⟨m, true, c⟩ ds (n + 1) flag rs = acquireLoop ⟨m, true, c⟩ ds (n + 1) true rs := by
   rw [acquireLoop_code_succ, acquireLoop_code_succ]
 
 /-- Never more attempts than the limit — whatever the configuration. -/
@@ -214,9 +214,9 @@ theorem lastAttempt_cons (l : List Nat) (rest : List (List Nat)) (h : rest ≠ [
   | cons l' rest => simp [lastAttempt, List.getLast?_cons_cons]
 
 /-- Everything about the loop of the code as it is, by induction over the attempts left. -/
-theorem acquireLoop_code_facts (m : Nat) (ds : List Desc) (n : Nat) :
+theorem acquireLoop_code_facts (m c : Nat) (ds : List Desc) (n : Nat) :
     ∀ (flag : Bool) (rs : List Round),
-      let a := acquireLoop ⟨m, true⟩ ds (n + 1) flag rs
+      let a := acquireLoop ⟨m, true, c⟩ ds (n + 1) flag rs
       retriesJustified ds a.attempts = true ∧
       (∀ l ∈ a.attempts.dropLast, l = []) ∧
       (a.ok = true → a.kept = lastAttempt a.attempts ∧ a.marked = []) ∧
@@ -250,7 +250,7 @@ theorem acquireLoop_code_facts (m : Nat) (ds : List Desc) (n : Nat) :
       exact ⟨0, by omega, by cases rs <;> simpa using hm⟩
     · simp only [Bool.true_eq_false, ↓reduceIte, Nat.add_eq_zero_iff, Nat.succ_ne_self, and_false]
       obtain ⟨h1, h2, h3, h4, h5⟩ := ih false rs.tail
-      have hne := acquireLoop_attempts_ne ⟨m, true⟩ ds n false rs.tail
+      have hne := acquireLoop_attempts_ne ⟨m, true, c⟩ ds n false rs.tail
       refine ⟨retriesJustified_cons ds [] _ (critUnlaunched_nil ds _ hm) h1, ?_, ?_, ?_, ?_⟩
       · intro l hl
         rw [List.dropLast_cons_of_ne_nil hne] at hl
@@ -289,10 +289,10 @@ theorem tail_getD (rs : List Round) (j : Nat) : rs.tail.getD j [] = rs.getD (j +
 
 /-- Closed form, success: the first attempt that is not a failure (within the limit) decides; the attempts before it
     launched nothing, its tasks are kept, nothing is marked. -/
-theorem acquireLoop_code_first (m : Nat) (ds : List Desc) :
+theorem acquireLoop_code_first (m c : Nat) (ds : List Desc) :
     ∀ (i n : Nat) (flag : Bool) (rs : List Round), i < n →
       (∀ j, j < i → critMissing ds (rs.getD j []) = true) → critMissing ds (rs.getD i []) = false →
-      acquireLoop ⟨m, true⟩ ds n flag rs =
+      acquireLoop ⟨m, true, c⟩ ds n flag rs =
         { attempts := List.replicate i [] ++ [(roundOutcome ds (rs.getD i [])).deployed], ok := true,
           kept := (roundOutcome ds (rs.getD i [])).deployed, marked := [] } := by
   intro i
@@ -316,10 +316,10 @@ theorem acquireLoop_code_first (m : Nat) (ds : List Desc) :
 
 /-- Closed form, failure: every attempt up to the limit is a failure; nothing was launched, nothing is kept, the
     critical descriptors that missed their offer in the LAST round are marked. -/
-theorem acquireLoop_code_exhausted (m : Nat) (ds : List Desc) :
+theorem acquireLoop_code_exhausted (m c : Nat) (ds : List Desc) :
     ∀ (n : Nat) (flag : Bool) (rs : List Round),
       (∀ j, j < n + 1 → critMissing ds (rs.getD j []) = true) →
-      acquireLoop ⟨m, true⟩ ds (n + 1) flag rs =
+      acquireLoop ⟨m, true, c⟩ ds (n + 1) flag rs =
         { attempts := List.replicate (n + 1) [], ok := false, kept := [],
           marked := (roundOutcome ds (rs.getD n [])).undeployable.filter (critAt ds) } := by
   intro n
@@ -338,10 +338,26 @@ theorem acquireLoop_code_exhausted (m : Nat) (ds : List Desc) :
 /-! ### from acquireTasks to the DEPLOY wait, and to what the master saw -/
 
 theorem acquire_code_nonempty (ds : List Desc) (rs : List Round) (h : ds ≠ []) :
-    acquire AcqCfg.code ds rs = acquireLoop ⟨attemptLimit, true⟩ ds (2 + 1) true rs := by
+    acquire AcqCfg.code ds rs = acquireLoop ⟨attemptLimit, true, 1⟩ ds (2 + 1) true rs := by
   unfold acquire
   have : ds.isEmpty = false := by cases ds <;> simp_all
   simp [this, AcqCfg.code, attemptLimit]
+
+/-- The loop does not look at the channel its verdicts come through: the capacity changes nothing. -/
+theorem acquireLoop_cap (m : Nat) (r : Bool) (c c' : Nat) (ds : List Desc) (n : Nat) :
+    ∀ (flag : Bool) (rs : List Round), acquireLoop ⟨m, r, c⟩ ds n flag rs = acquireLoop ⟨m, r, c'⟩ ds n flag rs := by
+  induction n with
+  | zero => intro flag rs; rfl
+  | succ n ih =>
+    intro flag rs
+    simp only [acquireLoop, ih]
+
+/-- acquireTasks itself — every verdict heard — is the same before and after the repair of the hand-over. -/
+theorem acquire_legacy (ds : List Desc) (rs : List Round) : acquire AcqCfg.legacy ds rs = acquire AcqCfg.code ds rs := by
+  unfold acquire
+  split
+  · rfl
+  · exact acquireLoop_cap attemptLimit true 0 1 ds attemptLimit true rs
 
 theorem acquire_nil (cfg : AcqCfg) (rs : List Round) :
     acquire cfg [] rs = { attempts := [], ok := true, kept := [], marked := [] } := by
